@@ -19,7 +19,8 @@
 #   commanded-address:sibling-collision / sibling-collision   two devices of one library instance report the same address <= 251.
 #   unique        at quiescence (nothing pending anywhere, every claim window over) no address <= 251 is held twice.
 #   null-with-free-address   at quiescence a library device sits at 254 although some address in 0..251 is held by nobody.
-#   address-range at quiescence a library device reports an address that is neither in 0..251 nor 254.
+#   address-range at quiescence a library device reports an address that is neither in 0..251 nor 254 (known finding: SetMode(mode, 251)
+#                 on a two-device node puts the second device at 252).
 #   report        the addresses the library reports at the end are those its frames carried (book-keeping of the run agrees with the dump).
 import random, re, itertools
 import vlib
@@ -33,8 +34,12 @@ T0S = [5000, 4294967000, 4294966800, 4294967295 - 260, 2147483400, 10 ** 12, 700
 
 # findings that are not repaired (the repair needs an upstream design decision) and are to be listed in known_findings.json by the lead;
 # until then the check treats exactly these oracle keys as known
-PENDING_KNOWN = ['commanded-address:sibling-collision']
-PENDING_DESCR = {'commanded-address:sibling-collision':
+PENDING_KNOWN = ['commanded-address:sibling-collision', 'address-range']
+PENDING_DESCR = {'address-range':
+                 'SetMode(mode, a) gives device i of a multi-device node the preferred address a+i without looking at the range: with two devices and a=251 the second device claims '
+                 'the reserved address 252 (frame 18EEFFFC), keeps reporting 252 and is refused every other send; the property allows 0..251 or 254 only '
+                 '(witness: NODE mode=1 ndev=2 src=251 q=40 slots=5 t0=5000 | T 251 ; P)',
+                 'commanded-address:sibling-collision':
                  'HandleCommandedAddress stores the commanded address without looking at the other devices of the same tNMEA2000 instance: with devices at 30/31 a commanded '
                  'address (PGN 65240) naming the NAME of device 1 with new address 30 leaves both devices at 30; there is no loop-back, so the two never arbitrate and both '
                  'transmit from 30 (witness: NET t0=5000 | L2:30.1a,31.1b | start 0 ; tick 1 ; tick 250 ; tick 251 ; cmd 1b 30 ; drain ; tick 251)'}
@@ -97,8 +102,10 @@ def premise_net(ps, ops):
     for p in ps:
         if p['lib'] and len({a for a, _ in p['devs']}) != len(p['devs']):
             return False                 # one application gave two of its own devices the same preferred address
-        if any(a > MAXA for a, _ in p['devs']):
-            return False
+        for d, (a, _) in enumerate(p['devs']):
+            # above 251 only where the library itself derives it: SetMode(mode, a0) gives device d the address a0 + d
+            if a > MAXA and not (p['lib'] and d > 0 and p['devs'][0][0] <= MAXA and a == p['devs'][0][0] + d and a <= 253):
+                return False
     for o in ops:
         if o and o[0] == 'raw' and id_fields(int(o[1], 16))[0] == 60928:
             return False                 # a claimant outside the participants
@@ -388,6 +395,8 @@ def gen_net(seed, tier):
              'NET t0=5000 | L2:30.1a,31.1b | start 0 ; tick 1 ; tick 250 ; raw 18eeff1e 8 1b00000000000000 ; drain ; tick 251 ; raw 18eeff1f 3 1b0000 ; drain ; raw 18eeff1f 0 - ; drain ; tick 251',
              'NET t0=5000 | L2:30.1a,30.1b F:30.05 | start 0 ; start 1 ; tick 1 ; tick 250 ; drain ; tick 251 ; drain',
              'NET t0=5000 | L2:254.1a,14.1b F:15.05 | start 1 ; start 0 ; tick 1 ; tick 250 ; drain ; tick 251 ; raw 18eefffe 8 0100000000000000 ; drain ; restart 0 ; drain ; tick 251',
+             # the second device of a node configured with 251 gets 252 from SetMode (finding address-range)
+             'NET t0=5000 | L1:251.1a,252.1b F:251.05 | start 0 ; start 1 ; tick 1 ; tick 250 ; drain ; tick 251 ; drain ; tick 251',
              # all three devices contend with a lower foreign NAME at the wrap
              'NET t0=4294967000 | L1:250.10,251.11,0.12 F:250.01 F:251.02 F:0.03 | start 0 ; start 1 ; start 2 ; start 3 ; tick 1 ; tick 250 ; drain ; tick 251 ; drain ; tick 251']
     nrand = 260 if not thorough else 6000
@@ -447,6 +456,7 @@ def node_cases(seed, tier):
     bam = lambda nm, a, dst=255: [tp_rts(65240, 50, dst, 9, bam=(dst == 255)), 'P', tp_dt(50, dst, 1, list(nm.to_bytes(8, 'little'))[:7]), 'P',
                                   tp_dt(50, dst, 2, [list(nm.to_bytes(8, 'little'))[7], a]), 'P']
     cases.append('NODE mode=1 ndev=2 src=30 q=40 slots=5 t0=5000 | ' + ' ; '.join(bam(NAME0 + 1, 30) + ['T 251', 'P']))
+    cases.append('NODE mode=1 ndev=2 src=251 q=40 slots=5 t0=5000 | T 251 ; P')     # finding address-range: device 1 sits at 252
     cases.append('NODE mode=1 ndev=2 src=30 q=40 slots=5 t0=5000 | ' + ' ; '.join(bam(NAME0 + 1, 77) + ['T 251', 'P'] + bam(NAME0, 251) + bam(NAME0, 255) + bam(NAME0, 252)))
     for _ in range(60 if not thorough else 1500):
         ndev = r.choice([1, 1, 2, 3])
@@ -491,8 +501,8 @@ def oracle_node(case, res):
     if cfg['mode'] not in (1, 2) or cfg.get('cold'):
         return None
     addr = [(src0 + i) & 255 for i in range(ndev)]
-    if any(a > MAXA for a in addr):
-        return None                       # preferred addresses outside 0..251: not a claimant the property speaks of
+    if src0 > MAXA or any(a > 253 for a in addr):
+        return None                       # preferred address outside 0..251: not a claimant the property speaks of
     names = [NAME0 + i for i in range(ndev)]
     pending = []
     lost = [set() for _ in range(ndev)]   # addresses lost to a lower NAME since the device last completed a claim
@@ -571,6 +581,9 @@ def oracle_node(case, res):
     if not premise:
         return None
     rep = [int(x) for x in re.findall(r'dev\d+\{src=(\d+)', state)]
+    for i, a in enumerate(rep):
+        if a > MAXA and a != NULL and rep == addr:
+            return 'address-range:device %d reports address %d at the end (neither 0..251 nor 254)' % (i, a)
     if rep != addr:
         return 'report:the node reports addresses %s at the end, its claims were sent from %s' % (rep, addr)
     m = re.search(r'ac=(\d)', state)
@@ -603,9 +616,8 @@ def explore_lines(tier):
     if thorough:
         lines += ['EXPL t0=4294967000 ticks=1 depth=200 | L1:30.3 F:30.1 L2:30.2 | ' + pre3,
                   'EXPL t0=4294967000 ticks=0 depth=200 | L1:30.3 F:30.1 F:30.2 | ' + pre3,
-                  'EXPL t0=5000 ticks=2 depth=300 | L1:30.3 F:30.1 L2:30.2,31.4 | ' + pre3,
-                  'EXPL t0=5000 ticks=1 depth=300 | L1:30.4 F:30.1 L2:30.2 F:31.3 | ' + pre4,
-                  'EXPL t0=5000 ticks=1 depth=300 | L1:30.4 L1:30.1 L1:30.2 L1:30.3 | ' + pre4]
+                  'EXPL t0=5000 ticks=0 depth=300 | L1:30.4 F:30.1 F:40.2 F:50.3 | ' + pre4,
+                  'EXPL t0=5000 ticks=0 depth=300 | L1:30.4 L1:30.1 F:40.2 L1:41.3 | ' + pre4]
     return lines
 
 
